@@ -215,6 +215,17 @@ fn snap(scratch: &Path, src: &Path, label: &str, counter: &AtomicUsize) {
 
 static PANICS: Mutex<Vec<String>> = Mutex::new(Vec::new());
 
+/// The key folder AS CONFIGURED (what the agent is told): `$C12_KEYS_DIR` verbatim when set -- e.g. the relative
+/// path "keys" (the check starts the driver with the scratch tree as working directory) -- else <scratch>/keys.
+/// <scratch>/keys itself may be a symlink (or a chain of symlinks) to the directory that really holds the files;
+/// the driver's own bookkeeping always goes through <scratch>/keys.
+fn configured_key_dir(scratch: &Path) -> PathBuf {
+    match std::env::var("C12_KEYS_DIR") {
+        Ok(v) if !v.is_empty() => PathBuf::from(v),
+        _ => scratch.join("keys"),
+    }
+}
+
 async fn run(ops: Vec<Value>, scratch: PathBuf) -> Value {
     let host = Arc::new(Host {
         queue: Mutex::new(VecDeque::new()),
@@ -275,7 +286,7 @@ async fn run(ops: Vec<Value>, scratch: PathBuf) -> Value {
 
     // the real key keeper (interval 10 ms once the channel state is known; the code's own 1 s while unknown)
     let base: hyper::Uri = format!("http://127.0.0.1:{}/", HOST_PORT).parse().unwrap();
-    let keeper = KeyKeeper::new(base, scratch.join("keys"), scratch.join("logs"), Duration::from_millis(10), &shared);
+    let keeper = KeyKeeper::new(base, configured_key_dir(&scratch), scratch.join("logs"), Duration::from_millis(10), &shared);
     tokio::spawn(async move { keeper.poll_secure_channel_status().await });
     if !wait_status_requests(&host, 1, Duration::from_secs(20)).await {
         return json!({"ok": false, "error": "the key keeper never asked for the channel status"});
@@ -472,7 +483,7 @@ pub fn main() {
     };
     let exe_dir = std::env::current_exe().unwrap().parent().unwrap().to_path_buf();
     let cfg = json!({
-        "logFolder": scratch.join("logs"), "eventFolder": scratch.join("events"), "latchKeyFolder": scratch.join("keys"),
+        "logFolder": scratch.join("logs"), "eventFolder": scratch.join("events"), "latchKeyFolder": configured_key_dir(&scratch),
         "monitorIntervalInSeconds": 60, "pollKeyStatusIntervalInSeconds": 15, "hostGAPluginSupport": 1,
         "ebpfProgramName": "ebpf_cgroup.o", "cgroupRoot": "/sys/fs/cgroup", "fileLogLevel": "Trace"
     });
